@@ -72,7 +72,29 @@ COQ_HEADER = ("From Coq Require Import List NArith ZArith.\n"
               "Import ListNotations.\nLocal Open Scope Z_scope.\nSet Printing Depth 1000000.\nSet Printing Width 2000.\n")
 
 
+def replay(path):
+    """./check C15 --replay file : re-run one recorded case on the implementation"""
+    import sys
+    d = json.load(open(path))
+    case = d.get("replay", d)
+    src = case.get("src")
+    if src is None:
+        print("replay file names a broken obligation, not an input: %s" % json.dumps(case)[:600]); sys.exit(1)
+    rq_ = {k: case[k] for k in ("src", "target", "format", "sig") if k in case}
+    both = harness1("c15_both", rq_)
+    js = harness1("c15_json", {"src": src})
+    d_, s_ = both.get("direct", {}), both.get("staged", {})
+    same = err_core(d_) == err_core(s_.get("r", s_))
+    print(json.dumps({"request": rq_, "direct": err_core(d_), "staged": err_core(s_.get("r", s_)), "stage": s_.get("stage"),
+                      "json_round_trip": {k: js.get(k) for k in ("pl_eq", "pl_text_eq", "rq_eq", "rq_text_eq", "pl_de_err", "rq_de_err")}}, indent=1)[:3000])
+    print("REPRODUCED" if not same or js.get("pl_eq") is False or js.get("rq_eq") is False or "pl_de_err" in js or "rq_de_err" in js else "NOT REPRODUCED")
+    sys.exit(0)
+
+
 def run():
+    import os
+    if os.environ.get("VERIF_REPLAY"):
+        return replay(os.environ["VERIF_REPLAY"])
     ck = Check("C15", level="proof")
     info = gen_serde.generate()
     einfo = gen_entry.generate()
@@ -85,7 +107,7 @@ def run():
     names = [n[4:] for n in harness1("names", {})["target_names"] if n != "sql.any"]
 
     # ------------------------------------------------------------------ programs
-    nrand = ck.n(40, 400)
+    nrand = ck.n(120, 400)
     rnd = [random_program(ck.rng) for _ in range(nrand)]
     progs = []
     for p in COVER + list(POOL) + ERRORS + NONFINITE + rnd:
@@ -165,7 +187,7 @@ def run():
 
     # ------------------------------------------------------------------ 3. descriptor-driven values through real serde
     if env is not None:
-        nval = ck.n(600, 5000)
+        nval = ck.n(1500, 5000)
         reqs, metas = [], []
         src_hit = set(env.hit)
         env.hit = set()
@@ -233,7 +255,7 @@ def run():
 
     # ------------------------------------------------------------------ 4. the Coq definitions themselves on a sample
     if env is not None and small and pr["ok"]:
-        nsample = ck.n(48, 400)
+        nsample = ck.n(96, 400)
         ck.rng.shuffle(small)
         # keep both kinds and both origins
         sample = small[:nsample]
@@ -268,7 +290,7 @@ def run():
             ck.sample({"stream": "coq-model", "json": S.dumps(sample[0][2])[:300], "coq_result": "de = Some v, ser v = json"})
 
     # ------------------------------------------------------------------ 5. staged vs direct: 12 dialects x {format} x {signature}
-    sprogs = progs if ck.thorough else (COVER[:30] + list(POOL)[:14] + ERRORS + NONFINITE + rnd[:16])
+    sprogs = progs if ck.thorough else (COVER + list(POOL)[:20] + ERRORS + NONFINITE + rnd[:40])
     seen = set(); sp = []
     for p in sprogs:
         if p not in seen:
